@@ -999,13 +999,67 @@ func (fr *Frame) execLoopCut(l *Loop, in []*Edge) map[*ssa.BasicBlock][]*Edge {
 		}
 	}
 
+	// clauses the root function states about this loop of an inlined callee (invariants, latches, and an
+	// assigns clause that replaces the coarse frame inherited from the root's own assigns clause)
+	if root := fr.rootFrame(); root != nil && root != fr && root.contract != nil {
+		for _, wl := range []*LoopContract{root.contract.Within[fmt.Sprintf("%s#%d", fname, l.ord)], root.contract.Within[fmt.Sprintf("%s@%d#%d", fname, fr.site, l.ord)]} {
+			if wl == nil {
+				continue
+			}
+			nlc := &LoopContract{}
+			if lc != nil {
+				*nlc = *lc
+			}
+			nlc.Invariants = append(append([]Clause{}, nlc.Invariants...), wl.Invariants...)
+			nlc.Latch = append(append([]Clause{}, nlc.Latch...), wl.Latch...)
+			var act []Clause
+			for _, a := range wl.Assigns {
+				if clauseActive(a.Tags, vc.w.prop) {
+					act = append(act, a)
+				}
+			}
+			if len(act) > 0 {
+				nlc.Assigns = append(append([]Clause{}, nlc.Assigns...), act...)
+			}
+			lc = nlc
+		}
+	}
+
 	var loopLocs []assignLoc
 	var rootInvs []Clause
 	frameWm := pre.wm
 	if lc != nil && len(lc.Assigns) > 0 {
 		save := fr.st
 		fr.st = pre
-		loopLocs, _, _ = fr.assignLocs(lc.Assigns, fr.loopScope(l, phis, entryPhi), pre)
+		asc := fr.loopScope(l, phis, entryPhi)
+		for _, a := range lc.Assigns {
+			if a.Mixed {
+				asc = fr.mixedScope(asc)
+				// the frame speaks about what existed when the inlined function was entered (the automatic
+				// list invariants below compare with that state)
+				frameWm = fr.entry.wm
+				break
+			}
+		}
+		loopLocs, _, _ = fr.assignLocs(lc.Assigns, asc, pre)
+		// a list named by capelems(...) in a within-assigns clause is still the list the inlined function was
+		// entered with, or was reallocated since (checked like any invariant)
+		for _, a := range lc.Assigns {
+			n := a.Expr
+			if a.Mixed && n.Kind == "call" && n.Args[0].Kind == "ident" && n.Args[0].Name == "capelems" {
+				x := n.Args[1].Src
+				if x == "" {
+					x = nodeText(n.Args[1])
+				}
+				src := fmt.Sprintf("base(%s) == 0 || (base(%s) == old(base(%s)) && cap(%s) == old(cap(%s))) || base(%s) >= old($wm)", x, x, x, x, x, x)
+				if inv, err := parseSpec(src); err == nil {
+					nlc := &LoopContract{}
+					*nlc = *lc
+					nlc.Invariants = append(append([]Clause{}, nlc.Invariants...), Clause{Expr: inv, Src: src + " (automatic, from the loop's assigns clause)", Mixed: true, Tags: a.Tags})
+					lc = nlc
+				}
+			}
+		}
 		fr.st = save
 	} else if root := fr.rootFrame(); root != nil && root.contract != nil && len(root.contract.Assigns) > 0 {
 		// no loop frame given: the loop may modify at most what the verified
@@ -1046,21 +1100,6 @@ func (fr *Frame) execLoopCut(l *Loop, in []*Edge) map[*ssa.BasicBlock][]*Edge {
 	for _, ri := range rootInvs {
 		ri.RootScope = true
 		lc.Invariants = append(lc.Invariants, ri)
-	}
-	// clauses the root function states about this loop of an inlined callee
-	if root := fr.rootFrame(); root != nil && root != fr && root.contract != nil {
-		for _, wl := range []*LoopContract{root.contract.Within[fmt.Sprintf("%s#%d", fname, l.ord)], root.contract.Within[fmt.Sprintf("%s@%d#%d", fname, fr.site, l.ord)]} {
-			if wl == nil {
-				continue
-			}
-			nlc := &LoopContract{}
-			if lc != nil {
-				*nlc = *lc
-			}
-			nlc.Invariants = append(append([]Clause{}, nlc.Invariants...), wl.Invariants...)
-			nlc.Latch = append(append([]Clause{}, nlc.Latch...), wl.Latch...)
-			lc = nlc
-		}
 	}
 	// 1. invariant on entry
 	fr.reach, fr.st = reachIn, pre
